@@ -306,6 +306,7 @@ def convert_inv(execution, inv_rec):
                 raise Unsupported("nested executor")
             cfg = {"script": scripts, "maxc": x["maxc"], "mins": x["mins"], "tolc": x["tolc"], "tolp": x["tolp"],
                    "tfail": bool(execution.sc.get("faults") or execution.sc.get("faults_after_apply") or execution.sc.get("get_state_fault")),
+                   "lag": bool(execution.sc.get("timer_lag")),
                    "pre": pre}
             started = True
             continue
